@@ -20,6 +20,9 @@ RULE = ("2..5 real instances on one simulated link, 1..6 services of 1..3 types 
         "fixed scenario), the library's own jitter. Oracle: "
         "17 s after the last change every live browser reports exactly the registered instances of its types on live "
         "hosts; lookups made from add_service for services that stay registered resolve to a registered version. "
+        "20 % of the runs are 'hot': a change (unregister, update, close) is issued a few ms after the owner's first "
+        "unicast reply to a browser that has just started on a host that has just joined, delays are none or maximal, the "
+        "lost datagram is one the change itself sends. 35 % of the updates change the registered ServiceInfo in place. "
         "Non-trivial = at least 2 hosts, one browser and one registration took part.")
 ASSUMPTIONS = [
     "settling time 17 s after the last change (4th start-up query at ~14.1 s + 1.2 s protected answer + 0.5 s aggregation + "
@@ -30,7 +33,9 @@ ASSUMPTIONS = [
     "an update follows the previous announcement burst of that service by more than 1 s (cache-flush retires only records "
     "received more than one second ago, RFC 6762 10.2, so a faster update legitimately leaves both versions cached)",
     "no API call is made on an instance after its close() was called",
-    "host stalls are not injected (not implemented in the simulator); loss is limited to one datagram per run as stated",
+    "host stalls are not injected (the property's fault model has none: three goodbyes read microseconds apart after a "
+    "stall cannot be told from link-layer copies by any receiver); loss is limited to one datagram per run as stated",
+    "a duplicated datagram's second copy is a datagram like any other: its own delay within the 100 ms",
 ]
 
 TYPES = ["_http._tcp.local.", "_ipp._tcp.local.", "_x-y._udp.local."]
